@@ -649,6 +649,15 @@ def _agg_intervals(aggname, keys):
         t, inCal, cal, alpha, gmc, self, kind, res = gaussian_aggregate_run(h, keys)
         if kind == "raise":
             return h.fail("no_raise", f"raised {res}", replay=lambda ev: {"target": "verif_replays:gaussian_aggregate_replay", "args": [list(keys)], "check": "result['exc'] is None and result['ok']"})
+        # C13: the call is made once per requested aggregate level on ONE model object -- it must leave the per-level state
+        # it reads (the unit bounds cached by get_unit_prediction_intervals) as it found it, otherwise what is reported for
+        # one aggregate level depends on which other levels were requested before it
+        rp_agg = lambda ev: {"target": "verif_replays:aggregate_independence_replay", "args": ["gaussian"], "check": "result['exc'] is None and result['ok']"}  # noqa: E731
+        for nm_ in ("alpha_to_nonreporting_lower_bounds", "alpha_to_nonreporting_upper_bounds"):
+            cache = self.attrs[nm_]
+            vals = list(cache.values())
+            sym = h.syms["nr_lower" if "lower" in nm_ else "nr_upper"](t.root.u)
+            h.ensures(f"C13.{nm_}.left_as_it_was_found", len(vals) == 1 and isinstance(vals[0], V) and z3.eq(z3.simplify(vals[0].t), z3.simplify(sym)), why="the cached unit bounds of this level were modified by the aggregate call", replay=rp_agg)
         L = len(keys)
         rp = lambda ev: {"target": "verif_replays:gaussian_aggregate_replay", "args": [list(keys)], "check": "result['exc'] is None and result['ok']"}  # noqa: E731
         if not gmc.calls:
@@ -968,6 +977,6 @@ for _u in list(UNITS.get("C15", [])):
         if not any(x["name"] == "gaussian.unit_intervals" for x in UNITS.get("C03", [])):
             UNITS.setdefault("C03", []).append(dict(_u, prop="C03", name="gaussian.unit_intervals"))
     if _u["name"].startswith("aggregate_intervals."):
-        for _p in ("C02", "C03", "C10"):
+        for _p in ("C02", "C03", "C10", "C13"):
             if not any(x["name"] == "gaussian." + _u["name"] for x in UNITS.get(_p, [])):
                 UNITS.setdefault(_p, []).append(dict(_u, prop=_p, name="gaussian." + _u["name"]))
